@@ -217,14 +217,21 @@ theorem cache_get_latest_unless_gone {T : Type} (ts : TStep T) (c : CacheG T) (h
     · rw [e]; simp only [List.mem_singleton]; exact fun x => hne x.symm
   simp [hnow, hev]
 
-/-- with an expiry of at least one wheel interval nothing expires at the `Set` itself (timer table; by
-`cache_refines_timer_table` the same holds for the wheel) -/
-theorem set_expires_later (c : Spec.ACache) (k v t : Nat) (ht : 1 ≤ t) :
+/-- nothing expires at the `Set` itself, whatever the (jittered) expiry — also below one wheel interval
+(timer table; by `cache_refines_timer_table` the same holds for the wheel) -/
+theorem set_expires_later (c : Spec.ACache) (k v t : Nat) :
     (CacheG.set C12.Spec.step c k v t).2.expired = [] := by
   unfold CacheG.set
   dsimp only
-  rw [table_no_immediate_fire _ k v t _ ht]
+  rw [table_no_immediate_fire _ k v t]
   rfl
+
+/-- **`Get` right after `Set` returns the value set**, for every expiry (corollary for the timer-table cache). -/
+theorem cache_get_after_set (c : Spec.ACache) (h : c.Inv) (k v t : Nat) :
+    (CacheG.get C12.Spec.step (CacheG.set C12.Spec.step c k v t).1 k).2.result = some v := by
+  have := cache_get_latest_unless_gone C12.Spec.step c h k v t [] (by rw [set_expires_later]; simp)
+    (by simp) (by simp [CacheG.run])
+  simpa [CacheG.after] using this
 
 /-- limit 2: keys 1, 2 set, 1 read (moves to front), 3 set → 2 is evicted, 1 and 3 stay; expiry after 3 ticks -/
 example : (CacheG.run C12.step (Cache.new 2 300) [.set 1 10 3, .set 2 20 3, .get 1, .set 3 30 5, .get 2, .get 1, .tick, .tick, .tick, .get 1, .get 3]).map
@@ -232,9 +239,23 @@ example : (CacheG.run C12.step (Cache.new 2 300) [.set 1 10 3, .set 2 20 3, .get
     = [([], [], none), ([], [], none), ([], [], some 10), ([2], [], none), ([], [], none), ([], [], some 10),
        ([], [], none), ([], [], none), ([], [1], none), ([], [], none), ([], [], some 30)] := by decide
 
-/-- the pinned behaviour outside the property's range: an expiry below one wheel interval on an *existing* key
-takes the `MoveTimer(delay < interval)` path, which runs the callback at once — the entry just set is deleted -/
+/-! ### The defect of the pinned code (kept as a machine-checked witness)
+
+`SetWithExpire` used `MoveTimer` for a key that was already cached; `MoveTimer` with a delay below the wheel
+interval (one second) runs the expiry callback at once.  So re-setting a key with a (jittered) expiry below
+one second deleted the entry that had just been set: `Get` right after `Set` missed
+(`NewCache(time.Second)`: about half of all re-Sets).  Replayed on the real code
+(fixes/C16-cache-reset-subsecond-expiry.replay.json), fixed by fixes/C16-cache-reset-subsecond-expiry.patch. -/
+
+/-- the faithful model of the pinned `SetWithExpire` violates `cache_get_after_set`:
+set 1 ↦ 10, set 1 ↦ 11 with an expiry of 0 whole ticks (e.g. 500 ms), get 1 misses -/
+theorem pinned_set_subsecond_deletes :
+    let c1 := (CacheG.setPinned C12.step (Cache.new 0 300) 1 10 1).1
+    (CacheG.setPinned C12.step c1 1 11 0).2.expired = [1]
+    ∧ (CacheG.get C12.step (CacheG.setPinned C12.step c1 1 11 0).1 1).2.result = none := by decide
+
+/-- the fixed code on the same history -/
 example : (CacheG.run C12.step (Cache.new 0 300) [.set 1 10 1, .set 1 11 0, .get 1]).map (fun o => (o.expired, o.result))
-    = [([], none), ([1], none), ([], none)] := by decide
+    = [([], none), ([], none), ([], some 11)] := by decide
 
 end GoZero.C16
